@@ -32,7 +32,10 @@ class VariableBoundMinPropagator(VariableBoundPropagator):
 #        print("  i=" + str(i))
 
         must_propagate = False
-        if i < len(range_l):
+        if len(range_l) == 0:
+            # Empty domain: nothing to trim. The solver will report the failure
+            pass
+        elif i < len(range_l):
             if i > 0:
                 # Need to trim off full range elements
                 must_propagate = True
